@@ -354,9 +354,10 @@ func (w *Worker) Exec(j *Job) Result {
 		delete(w.procs, j.Node)
 		w.pool.Respawns.Add(1)
 	}
-	if res.Status == "timeout" && !(res.Exit == 1 && bytes.HasSuffix(bytes.TrimRight(res.Stdout, "\n"), []byte("timeout"))) {
+	if res.Status == "timeout" && !bytes.HasSuffix(bytes.TrimRight(res.Stdout, "\n"), []byte("timeout")) {
 		// a timer fired during the run, but the process did not end the way the properties
-		// define a hang (exit status 1 after printing `timeout`): some other timer
+		// define a hang (it printed `timeout`): some other timer, or the worker finished and
+		// exited before main's select got to run
 		res.Status = "exit"
 	}
 	if res.Status == "stuck" {
